@@ -353,6 +353,7 @@ Outcome exec_c14a(const C14aCase& cc, bool keep_log, Stats* stats) {
     stats->add("checked_answers", checked);
     stats->add("fresh_twin_loads", fresh_loads);
     stats->add(random_mode ? "random_histories" : "enumerated_hint_states");
+    stats->add("sim_seconds", static_cast<int64_t>(c.steps.size()) * 40 * 86400);
     if (tls_blocks) stats->add("probe.thread_local_instances_created", tls_blocks);
     if (clk.reads != clock_reads_before) stats->add("probe.library_read_the_clock", clk.reads - clock_reads_before);
     if (!rt.ub.empty()) stats->add("ubsan_reports_counted_not_judged", static_cast<int64_t>(rt.ub.size()));
